@@ -661,6 +661,9 @@ func c11(c *Ctx) {
 		}
 	}
 
+	r.Rule("R11.M", "the notification mutex (and every other mutex of the client) is given back on every path out of the handler that takes it: the second rotation finds it free", 10)
+	c.locksReleased("R11.M", c.repoFunctionsWithLocks())
+
 	// ---- R11.X: a waiter channel is never closed by the machinery that sends on it -------------------------
 	r.Rule("R11.X", "no waiter channel is closed by the table or the receive path: the retry marker (forget, then send) and rpc results are sent on channels taken from the table, and a send on a closed channel panics in the receive loop", 1)
 	c.noWaiterClose("R11.X")
@@ -968,7 +971,11 @@ func (c *Ctx) receiveSendsTargeted(rule string) {
 		if f == nil {
 			continue
 		}
-		for _, b := range f.Blocks {
+		var blocks []*ssa.BasicBlock
+		for _, g := range an.WithAnon(f) { // a handler arm moved into a function literal is still the handler
+			blocks = append(blocks, g.Blocks...)
+		}
+		for _, b := range blocks {
 			for _, in := range b.Instrs {
 				var ch ssa.Value
 				switch x := in.(type) {
